@@ -127,6 +127,7 @@ func init() {
 		}
 		panic(unsupported{"Time.Format of opaque time"})
 	}
+	externals["time.runtimeNano"] = func(in *Interp, fr *frame, args []value) value { return in.intConst(1) }
 	externals["(*time.ParseError).Error"] = func(in *Interp, fr *frame, args []value) value {
 		return "parsing time: cannot parse"
 	}
@@ -137,9 +138,7 @@ func init() {
 		in.assume(in.tb.BVSLt(sec, in.tb.BV(SBV64, 315537897600)))
 		return in.mkTime(in.tb.BV(SBV64, 0), sec)
 	}
-	ident := func(in *Interp, fr *frame, args []value) value { return args[0] }
-	externals["(time.Time).Local"] = ident
-	externals["(time.Time).UTC"] = ident
+	// Time.Local / Time.UTC run from their real SSA (they only set the location pointer)
 	externals["(time.Time).AddDate"] = func(in *Interp, fr *frame, args []value) value {
 		y, m, d := args[1].(*Term), args[2].(*Term), args[3].(*Term)
 		if !y.IsConst() || !m.IsConst() || y.SVal() != 0 || m.SVal() != 0 {
